@@ -528,7 +528,8 @@ Section NoTwice.
     | Advance s => st_cur st <= s /\ bounded s
     | SetEnv _ => True
     | Start => True
-    | Tick => g < st_cur st / ct_spe (c_ct c) /\ st_cur st = (st_cur st / ct_spe (c_ct c)) * ct_spe (c_ct c)
+    | Tick => (Z.of_N (st_cur st / ct_spe (c_ct c)) <= st_tick st)%Z       (* a repeated tick: guarded *)
+              \/ (g < st_cur st / ct_spe (c_ct c) /\ st_cur st = (st_cur st / ct_spe (c_ct c)) * ct_spe (c_ct c))
     | Head _ _ _ => True
     | Fire (JAtt s) _ | Fire (JProp s) _ | Fire (JEarly s) _ => s <= st_cur st
     | Fire (JPrep e) _ => st_cur st / ct_spe (c_ct c) < e /\ e * ct_spe (c_ct c) < two64
@@ -730,13 +731,17 @@ Section NoTwice.
     - apply inv_set_jobs; [exact I | |]; intros s' H; left; apply tremove_sub in H; exact H.
   Qed.
 
+  Lemma tick_noop' : forall st, (Z.of_N (st_cur st / ct_spe (c_ct c)) <= st_tick st)%Z -> epoch_tick c st = st.
+  Proof. intros st H. unfold epoch_tick, cur_epoch. apply Z.leb_le in H. rewrite H. reflexivity. Qed.
+
   Theorem inv_step : forall g st o, inv g st -> op_ok g st o -> inv (ghost g st o) (step shadowed c st o).
   Proof.
     intros g st o I Hok. destruct o; cbn [step ghost]; cbn [op_ok] in Hok; try contradiction.
     - destruct Hok. apply inv_advance; assumption.
     - apply (inv_update g st); try reflexivity; [exact I | apply att_step_refl | apply prop_step_refl].
     - apply inv_start with (g := g). exact I.
-    - destruct Hok. apply inv_tick; assumption.
+    - destruct Hok as [Hg|[Hg Hf]]; [|apply inv_tick; assumption].
+      rewrite tick_noop'; [exact I | exact Hg].
     - apply inv_head. exact I.
     - apply inv_fire; assumption.
     - apply inv_set_jobs; [exact I | |].
@@ -753,6 +758,43 @@ Section NoTwice.
     induction ops as [|o ops IH]; intros g st I H; [exact I|].
     destruct H as [H1 H2]. unfold run. cbn [fold_left ghost_run]. apply IH; [|exact H2].
     apply inv_step; assumption.
+  Qed.
+
+  (* the discipline, decidable *)
+  Definition bounded_b (s : N) : bool := (s / ct_spe (c_ct c) + 3) * ct_spe (c_ct c) <? two64.
+  Definition op_ok_b (g : N) (st : state) (o : op) : bool :=
+    match o with
+    | Advance s => (st_cur st <=? s) && bounded_b s
+    | SetEnv _ | Start | Head _ _ _ | RefreshAtt _ => true
+    | Tick => (Z.of_N (st_cur st / ct_spe (c_ct c)) <=? st_tick st)%Z
+              || ((g <? st_cur st / ct_spe (c_ct c)) && (st_cur st =? (st_cur st / ct_spe (c_ct c)) * ct_spe (c_ct c)))
+    | Fire (JAtt s) _ | Fire (JProp s) _ | Fire (JEarly s) _ => s <=? st_cur st
+    | Fire (JPrep e) _ => (st_cur st / ct_spe (c_ct c) <? e) && (e * ct_spe (c_ct c) <? two64)
+    | Fire (JSync _) _ => true
+    | RefreshProp ep => ep =? st_cur st / ct_spe (c_ct c)
+    | SchedAtt _ _ | SchedProp _ _ | SchedSync _ _ | RefreshSync _ => false
+    end.
+
+  Lemma op_ok_b_sound : forall g st o, op_ok_b g st o = true -> op_ok g st o.
+  Proof.
+    intros g st o H. destruct o; cbn [op_ok_b op_ok] in *; try exact I; try discriminate.
+    - unfold bounded, bounded_b in *. lia.
+    - lia.
+    - destruct n; try exact I; lia.
+    - lia.
+  Qed.
+
+  Fixpoint hist_ok_b (g : N) (st : state) (ops : list op) : bool :=
+    match ops with
+    | [] => true
+    | o :: ops' => op_ok_b g st o && hist_ok_b (ghost g st o) (step shadowed c st o) ops'
+    end.
+
+  Lemma hist_ok_b_sound : forall ops g st, hist_ok_b g st ops = true -> hist_ok g st ops.
+  Proof.
+    induction ops as [|o ops IH]; intros g st H; [exact I|].
+    cbn [hist_ok_b] in H. apply andb_true_iff in H. destruct H as [H1 H2].
+    split; [apply op_ok_b_sound; exact H1 | apply IH; exact H2].
   Qed.
 
   (* a freshly built controller satisfies the invariant *)
